@@ -160,11 +160,46 @@ def spell(rng, v, *, ws=True, plain=False):
     return s
 
 
+def confusable(rng, c):
+    """a non-ASCII code point that some Unicode operation (lower / upper / casefold / NFKC / int()) maps to the ASCII
+    character ``c`` — the inputs on which 'normalise first, then match' and 'match, then normalise' differ"""
+    table = {"k": "\u212a", "K": "\u212a", "s": "\u017f", "S": "\u017f", "i": "\u0131", "I": "\u0130"}
+    opts = []
+    if c in table:
+        opts += [table[c]] * 3
+    if c.isascii() and c.isalpha():
+        opts += [chr(0xFF21 + ord(c.upper()) - 65), chr(0xFF41 + ord(c.lower()) - 97), chr(0x1D400 + ord(c.upper()) - 65)]
+    if c.isascii() and c.isdigit():
+        opts += [chr(0x0660 + int(c)), chr(0xFF10 + int(c)), chr(0x1D7CE + int(c)), "\u00b2" if c == "2" else chr(0x0966 + int(c))]
+    if c in ".-_+!":
+        opts += {".": ["\uff0e", "\u2024"], "-": ["\u2010", "\uff0d"], "_": ["\uff3f"], "+": ["\uff0b"], "!": ["\uff01"]}[c]
+    return rng.choice(opts) if opts else c
+
+
+def confuse(rng, s):
+    """replace one character (preferably a letter) by a confusable; the result is a near-valid non-ASCII string"""
+    letters = [i for i, c in enumerate(s) if c.isascii() and c.isalpha()]
+    # prefer the letters k, s, i (they have single-code-point case partners outside ASCII)
+    special = [i for i in letters if s[i] in "kKsSiI"]
+    pool = special if special and rng.random() < 0.6 else (letters if letters and rng.random() < 0.8 else list(range(len(s))))
+    if not pool:
+        return s
+    i = rng.choice(pool)
+    return s[:i] + confusable(rng, s[i]) + s[i + 1:]
+
+
 def malformed(rng, s):
     """token- and character-level damage to a valid spelling"""
-    k = rng.randrange(7)
+    k = rng.randrange(9)
     if not s:
         return rng.choice(ODD_CHARS)
+    if k >= 7:
+        if k == 8 and "+" in s:
+            # a local label that contains one of the letters with a non-ASCII case partner
+            head, _, loc = s.partition("+")
+            j = rng.randrange(len(loc) + 1)
+            s = head + "+" + loc[:j] + rng.choice(["k", "K", "s", "i", "ks1"]) + loc[j:]
+        return confuse(rng, s)
     i = rng.randrange(len(s) + 1)
     if k == 0:
         return s[:i] + rng.choice(ODD_CHARS) + s[i:]
